@@ -1,6 +1,7 @@
 import TPV.Model.GeomTerm
 import TPV.Model.GeomSample
 import TPV.Model.GeomSdf
+import TPV.Model.GeomPoly
 open TPV TPV.Proto TPV.Geom
 
 def showEnvF (e : Env Float) : String :=
@@ -88,6 +89,13 @@ def step (line : String) : String :=
       match prodSample n batch fuel with
       | some out => return s!"{out.length} | " ++ " ".intercalate (out.map fun p => s!"{p.1}:{p.2.1}:{p.2.2}")
       | none => return "none"
+    | "poly" => do          -- even-odd membership of a polygon with an optional hole (exact)
+      let pr : P (Rat × Rat) := do let a ← rat; let b ← rat; pure (a, b)
+      let outer ← many pr
+      let hole ← many pr
+      let q ← pr
+      return (match polyHoleContains outer (if hole.isEmpty then none else some hole) q with
+        | some true => "1" | some false => "0" | none => "edge")
     | "translate" => do
       let q ← many rat; let t ← many rat
       return (match translatePt q t with | some p => showList showRat p | none => "none")
